@@ -69,7 +69,15 @@ Section Explore.
                                                                | _ => w1 :: settle 40 [w1]
                                                                end) (advance_to false 60 at_ w')) (settle 40 [w])
                                     else [w]) ws in
-      let ws2 := map (fun w => fold_left (fun w s => match s with (p, c, f) => send w p c f end) sends (normalize w)) ws1 in
+      (* (PHigh, CDelete) stands for "the last Job handle is dropped": a task that starts a fresh recv drains the urgent and the
+         high lane with try_recv before it notices the closed channel (Delete at the end of the high lane); a task parked in
+         recv's biased select notices it as soon as the urgent lane is empty (Delete at the end of the urgent lane) *)
+      let send1 (ws : list world) (s : prio * ctrl * flag) : list world :=
+        match s with
+        | (PHigh, CDelete, f) => flat_map (fun w => [send w PHigh CDelete f; send w PUrgent CDelete f]) ws
+        | (p, c, f) => map (fun w => send w p c f) ws
+        end in
+      let ws2 := flat_map (fun w => fold_left send1 sends [normalize w]) ws1 in
       if yld then settle 40 ws2 else ws2
     end.
 
